@@ -282,7 +282,7 @@ func show(regs []rt.Reg) string {
 var ops = []string{
 	"valid", "valid", "valid", "break-grammar", "unknown-method", "repeat", "repeat-short-form", "plain-after-optional",
 	"optional-after-plain", "dup-bind-across", "dup-bind-inside", "inner-optional", "inner-empty", "second-mid-matchall",
-	"matchall-clash", "bad-expression", "single-optional", "metachar-literal", "unclassified",
+	"matchall-clash", "bad-expression", "single-optional", "metachar-literal", "unclassified", "shared-mid-matchall",
 }
 
 var badExprs = []string{"[", "(", "a)(b", "*", "a{2,1}", "[z-a]", "(?P<x", "x**", "\\", "a(?", ")"}
@@ -433,12 +433,25 @@ func genCase(t *rapid.T) Case {
 		cp = append(cp, d.Segs[j:]...)
 		d = model.Route{Segs: cp}
 	case "second-mid-matchall":
-		d = model.Route{Segs: []model.Seg{seg("t"),
-			{Elems: []model.Elem{{Params: []model.Param{{Name: "p", Value: "**", Blanks: 1}}}}}, seg("m"),
-			{Elems: []model.Elem{{Params: []model.Param{{Name: "q", Value: "**", Blanks: 1}}}}}, seg("u")}}
-		if rapid.Bool().Draw(t, "adjacent") {
-			d.Segs = append(d.Segs[:2:2], d.Segs[3:]...)
+		ma := func(name string) model.Seg {
+			if name == "" {
+				return model.Seg{Elems: []model.Elem{{Bind: "**"}}}
+			}
+			return model.Seg{Elems: []model.Elem{{Params: []model.Param{{Name: name, Value: "**", Blanks: 1}}}}}
 		}
+		first, second := "p", "q"
+		if rapid.IntRange(0, 3).Draw(t, "short1") == 0 {
+			first = ""
+		} else if rapid.IntRange(0, 3).Draw(t, "short2") == 0 {
+			second = ""
+		}
+		d = model.Route{Segs: []model.Seg{seg("t"), ma(first)}}
+		used := map[string]bool{"p": true, "q": true, "**": true}
+		for i, n := 0, rapid.IntRange(0, 2).Draw(t, "between"); i < n; i++ {
+			k := []model.Kind{model.KStatic, model.KRegex, model.KPlaceholder}[rapid.IntRange(0, 2).Draw(t, "bk")]
+			d.Segs = append(d.Segs, gen.SegOfKind(t, k, used, false))
+		}
+		d.Segs = append(d.Segs, ma(second), seg("u"))
 	case "matchall-clash":
 		// a different match-all at the position of a registered one
 		found := false
@@ -476,6 +489,42 @@ func genCase(t *rapid.T) Case {
 				cp[1] = model.Seg{Elems: []model.Elem{{Params: []model.Param{{Name: "q", Value: "**", Blanks: 1}}}}}
 				d = model.Route{Segs: cp}
 			}
+		}
+	case "shared-mid-matchall":
+		// a valid route that shares its non-final match-all segment with a
+		// registered one and continues differently
+		name := []string{"", "paths"}[rapid.IntRange(0, 1).Draw(t, "sname")]
+		mk := func(tail ...string) model.Route {
+			r := model.Route{Segs: []model.Seg{seg("sh")}}
+			if name == "" {
+				r.Segs = append(r.Segs, model.Seg{Elems: []model.Elem{{Bind: "**"}}})
+			} else {
+				r.Segs = append(r.Segs, model.Seg{Elems: []model.Elem{{Params: []model.Param{{Name: name, Value: "**", Blanks: 1}}}}})
+			}
+			for _, x := range tail {
+				r.Segs = append(r.Segs, seg(x))
+			}
+			return r
+		}
+		tails := [][]string{{"blob"}, {"raw"}, {"blob", "view"}, {"x", "y", "z"}}
+		a := tails[rapid.IntRange(0, 3).Draw(t, "ta")]
+		b := tails[rapid.IntRange(0, 3).Draw(t, "tb")]
+		base := mk(a...)
+		g := model.NewRegistrar()
+		okp := true
+		for _, p := range prefix {
+			for _, mm := range model.ExpandMethod(p.M) {
+				g.Add(mm, rt.Deriv(p.R))
+			}
+		}
+		for _, mm := range model.ExpandMethod(m) {
+			if v, _ := g.Check(mm, base); v != model.MustAccept {
+				okp = false
+			}
+		}
+		if okp {
+			prefix = append(prefix, rt.Reg{M: m, R: base.Source()})
+			d = mk(b...)
 		}
 	case "bad-expression":
 		x := badExprs[rapid.IntRange(0, len(badExprs)-1).Draw(t, "bx")]
